@@ -141,17 +141,19 @@ func TestC23(t *testing.T) {
 	}, sigh.ClassKeys)
 	// S2: real client against the reference relay, re-opens / failures at every relay step
 	type s2 struct {
-		name                 string
-		nmsg, reopens, fails int
+		name                                   string
+		nmsg, reopens, fails, resets, detaches int
 	}
-	s2s := []s2{{"1msg-1reopen", 1, 1, 0}, {"1msg-1fail", 1, 0, 1}, {"2msg-1reopen", 2, 1, 0}}
+	s2s := []s2{{"1msg-1reopen", 1, 1, 0, 0, 0}, {"1msg-1fail", 1, 0, 1, 0, 0}, {"2msg-1reopen", 2, 1, 0, 0, 0},
+		{"1msg-1fail-state-reset", 1, 0, 1, 1, 0}, {"1msg-1detach", 1, 0, 0, 0, 1}, {"2msg-1detach-1fail-reset", 2, 0, 1, 1, 1}}
 	if !run.Quick() {
-		s2s = append(s2s, s2{"1msg-2reopen", 1, 2, 0}, s2{"2msg-2reopen", 2, 2, 0}, s2{"2msg-1reopen-1fail", 2, 1, 1})
+		s2s = append(s2s, s2{"1msg-2reopen", 1, 2, 0, 0, 0}, s2{"2msg-2reopen", 2, 2, 0, 0, 0}, s2{"2msg-1reopen-1fail", 2, 1, 1, 0, 0},
+			s2{"2msg-2fail-2reset", 2, 0, 2, 2, 0}, s2{"2msg-1reopen-1detach-1fail-reset", 2, 1, 1, 1, 1})
 	}
 	mc.RunScenarios(t, agg, len(s2s), func(i int) *vsync.Config {
 		sc := s2s[i]
 		return &vsync.Config{Name: "client-s2/" + sc.name, Bound: bound, Delay: true, Deadline: run.Deadline(), MaxStep: 20000, Horizon: 10 * time.Minute,
-			Body: s2body(sc.nmsg, sc.reopens, sc.fails),
+			Body: s2body(sc.nmsg, sc.reopens, sc.fails, sc.resets, sc.detaches),
 			Check: func(x *vsync.Exec) string {
 				if x.HorizonHit {
 					return ""
@@ -175,9 +177,9 @@ var _ = context.Background
 // s2body: client-only harness. The real client sends nmsg messages through a
 // reference relay that may re-open the session / fail the stream at every step
 // (bounded), then stays stable.
-func s2body(nmsg, reopens, fails int) func() {
+func s2body(nmsg, reopens, fails, resets, detaches int) func() {
 	return func() {
-		s := sigh.NewS2(reopens, fails)
+		s := sigh.NewS2Ex(reopens, fails, resets, detaches)
 		done := 0
 		var wg vsync.WaitGroup
 		wg.Add(1)
